@@ -129,6 +129,19 @@ class Normaliser:
         if n in ("bool", "np.bool_") and len(e.args) == 1 and not e.keywords:
             return self.quant(e.args[0], pos)  # truth value of a reduction, made explicit
         if n in ("np.any", "np.all", "any", "all") and e.args and not e.keywords and len(e.args) == 1:
+            a0 = e.args[0]
+            # a predicate over stacked arrays, any(isfinite(concatenate([A, B]))) = any(isfinite(A)) or any(isfinite(B))
+            if isinstance(a0, ast.Call) and call_name(a0) in ("np.isfinite", "np.isinf", "np.isnan") and len(a0.args) == 1 and isinstance(a0.args[0], (ast.Call, ast.List, ast.Tuple)):
+                inner = a0.args[0]
+                parts = None
+                if isinstance(inner, (ast.List, ast.Tuple)):
+                    parts = inner.elts
+                elif call_name(inner) in ("np.concatenate", "np.vstack", "np.hstack", "np.stack", "np.array", "np.asarray", "np.row_stack", "np.column_stack") and inner.args and isinstance(inner.args[0], (ast.List, ast.Tuple)):
+                    parts = inner.args[0].elts
+                if parts and len(parts) >= 2:
+                    mk = lambda p_: ast.Call(func=e.func, args=[ast.Call(func=a0.func, args=[p_], keywords=[])], keywords=[])
+                    bo = ast.BoolOp(op=ast.Or() if n.endswith("any") else ast.And(), values=[mk(p_) for p_ in parts])
+                    return self.quant(bo, pos)
             is_any = (n.endswith("any")) == pos
             el = self.elem(e.args[0], pos)
             return self._dist("any" if is_any else "all", el)
